@@ -31,7 +31,7 @@ HEADER = ('From Coq Require Import List. Import ListNotations.\n'
           'Require Import Aiuti.Keys Aiuti.Case_C14 AiutiGen.T_KeyExpr.')
 CASE_TYPE = 'Case_C14.case'
 VERDICT = 'Case_C14.verdict'
-CLEAN_FOR_THOROUGH = ['theories/KeysInv.vo', 'theories/KeysMon.vo', 'theories/KeysMonN.vo']     # proofs only; Keys.vo/Case_C14.vo are shared with C15's evaluation
+CLEAN_FOR_THOROUGH = ['theories/KeysInv.vo', 'theories/KeysMon.vo', 'theories/KeysMonN.vo', 'theories/KeysSound.vo']     # proofs only; Keys.vo/Case_C14.vo are shared with C15's evaluation
 PARALLEL = 16
 CHUNK = 500
 
@@ -371,6 +371,17 @@ def gen_exhaustive(tier, seed):
         for q in perms:
             out.append(mk(KINDS[n % len(KINDS)], [call([7], p), call([7], q), call([7], q[:2])]))
             n += 1
+    # keyword-only calls with all 4 names: every insertion order against every other (thorough: 24 x 24;
+    # quick: each of the 24 against the first), then the same dict with one value changed (never shared)
+    base4 = [[0, 0], [1, 3], [2, 5], [3, 7]]
+    perms4 = [list(p) for p in itertools.permutations(base4)]
+    for p in (perms4 if tier != 'quick' else perms4[:1]):
+        for q in perms4:
+            other = [list(x) for x in q]
+            other[n % 4][1] = 11
+            out.append(mk(KINDS[n % len(KINDS)], [call([], p), call([], q), call([], other), call([], p)],
+                          form='deco' if n % 2 else 'direct'))
+            n += 1
     return out
 
 
@@ -507,13 +518,18 @@ RULE = ('cases = sequences of sequential calls (explicit positional objects and 
         '(Case_C14.C14N / mon_n).  non-trivial = at '
         'least two calls and at least one invocation (Case_C14.nontrivial)')
 EXHAUSTIVE_NOTE = ('all unordered pairs of a signature universe (quick: 8 positional tuples x 25 keyword dicts = 200 '
-                   'signatures; thorough: 26 x 25 = 650) and all 36 pairs of insertion orders of three keyword names')
+                   'signatures; thorough: 26 x 25 = 650), all 36 pairs of insertion orders of three keyword names, and '
+                   'keyword-only calls with four names in every insertion order against each other (thorough: all 24 x 24 '
+                   'pairs; quick: the 24 orders against the first), each followed by the same dict with one value changed')
 ASSUMPTIONS = ['tuple/frozenset/dict equality and hashing of the argument objects are modelled by equality classes '
                'sent by the harness (hash consistent with ==)',
                'lru.LRU(n) is a modelled primitive (move-to-front on hit, drop the least recently used beyond n)',
                'one caller at a time (the concurrent behaviour of the same cache is C01/C05/C06)']
 TRUSTED = ['harness/props/C14.py (driver, value table with equality classes), coq/theories/Case_C14.v (agree/ok)',
-           'harness/c14_translate.py (key expression and store selection from the AST, fail-closed)',
+           'harness/c14_translate.py (key expression and store selection from the AST, fail-closed; accepts only '
+           'spellings that are structurally the whitelisted trees after normalising parentheses, an annotation on the '
+           'assignment, is/is-not against None in either operand order or under not, dict() for {}; rejects any '
+           're-binding of the cache parameter or of the store variable)',
            'modelled, not verified: tuple/frozenset ==/hash, dict, lru.LRU']
 ALLOWED_AXIOMS = []
 LEVEL_TEXT = ('The key expression and the store-selection statement are translated from the AST of the current source '
@@ -526,8 +542,25 @@ LEVEL_TEXT = ('The key expression and the store-selection statement are translat
               'recomputation (evict_one_recompute), and a caller-supplied mapping is the only store '
               '(only_store_is_user_mapping).  Tied to /repo by running the real decorator on every generated history and '
               'comparing every observation with the model inside Coq; the monitor decides the property on the observed '
-              'trace from the property text alone.')
+              'trace from the property text alone, and what its verdict means is itself proved: it accepts every trace '
+              'of the model (monitor_accepts_model, monitor_n_accepts_model), and for ARBITRARY event and observation '
+              'lists it accepts if and only if a model-free statement holds (monitor_sound + monitor_sound_converse; '
+              'monitor_n_sound + monitor_n_sound_converse): every call invoked the function once and got its own value, '
+              'or invoked nothing and got a value computed by an earlier call with the same arguments (positional equal in '
+              'order, keyword pairs equal as sets) and never one computed for other arguments; it is served from the cache '
+              'iff the caller-supplied mapping held such a value (own dict: iff an earlier call had the same arguments); a '
+              'served call leaves the mapping unchanged, a computing call adds exactly its own value (LRU(n): min(n, old+1) '
+              'values, the new one among them), nothing foreign appears, an eviction removes exactly the evicted value; '
+              'and from that statement alone: after the eviction of a held value the next call with those arguments '
+              'computes exactly once and an immediately repeated call is served that value (monitor_sound_evict).  '
+              '16 theorems, all closed under the global context.')
 LEVEL_NOTE = ('trusted: Coq kernel + vm_compute; no axioms; equality classes supplied by the harness; tuple/frozenset/'
-              'dict/lru.LRU are modelled primitives validated only by the correspondence runs; translator; driver')
-TECHNIQUE = ('Coq proof over the translated key expression + induction over call/eviction histories; differential '
-             'correspondence evaluated by vm_compute')
+              'dict/lru.LRU are modelled primitives validated only by the correspondence runs; translator (fail-closed '
+              'whitelist with a built-in self-test of 48 accepted/rejected spellings); driver.  Out of scope: argument '
+              'objects whose __eq__ is asymmetric/non-transitive or whose hash is inconsistent with == (no equality '
+              'classes exist for them); monitor_sound_evict and monitor_accepts_model exclude histories of more than 99 '
+              'events against a pre-populated mapping (tag 99 is the foreign entry; the driver caps histories at 89)')
+TECHNIQUE = ('Coq proof over the translated key expression + induction over call/eviction histories; trace monitor proved '
+             'complete for the model and equivalent to a model-free statement (induction over the trace with the '
+             "monitor's accumulators characterised from the observations); differential correspondence evaluated by "
+             'vm_compute')
